@@ -396,7 +396,7 @@ OP_RECIPES = []
 RECIPES = [
     Recipe("x", T + "Variable", "('x', Real)", core=True, pk=("reflect", "lazy", "eager"), ri=("reflect",)),
     Recipe("xb", T + "Variable", "('x', Bint[2])"),
-    Recipe("i", T + "Variable", "('i', Bint[2])", core=True),
+    Recipe("i", T + "Variable", "('i', Bint[2])"),
     Recipe("ib", T + "Variable", "('i__BOUND_9', Bint[2])"),
     Recipe("y", T + "Variable", "('y', Reals[3])"),
     Recipe("n1", T + "Number", "(1,)", core=True, pk=("eager",)),
@@ -463,7 +463,7 @@ RECIPES = [
     Recipe("g0", "funsor.ops.GetitemOp", "(0,)", expr="ops.GetitemOp(0)", mcls="OpMeta"),
     Recipe("gm1", "funsor.ops.GetitemOp", "(-1,)", expr="ops.GetitemOp(-1)", mcls="OpMeta", dyn=True),
     Recipe("gm2", "funsor.ops.GetitemOp", "(-2,)", expr="ops.GetitemOp(offset=-2)", mcls="OpMeta", dyn=True),
-    Recipe("x3", T + "Variable", "('x3', Reals[2, 3, 4])"),
+    Recipe("x3", T + "Variable", "('x3', Reals[2, 3, 4])", core=True),
 ]
 OP_RECIPES.extend(_op_recipes())
 RECIPES = RECIPES + OP_RECIPES
@@ -591,10 +591,19 @@ def _collect_pins(w):
     for dom in list(ProductDomain._type_cache.values()):
         if id(dom) not in dyn_objs:
             pins.append(("funsor.domains.ProductDomain", "Product", tuple(dom.__args__), dom))
-    for nm in PINNED_OPS:
-        op = getattr(ops, nm)
+    seen = set()
+    cands = [getattr(ops, nm) for nm in PINNED_OPS]
+    for name, d in w.tables.items():
+        if name.startswith("funsor.ops."):
+            cands += [v for v in list(d.values()) if id(v) not in dyn_objs]
+    for op in cands:
+        if id(op) in seen:
+            continue
+        seen.add(id(op))
         c = type(op)
-        pins.append((f"{c.__module__}.{c.__qualname__}", "OpMeta", tuple(op.defaults.values()), op))
+        mc = "ReshapeMeta" if type(c).__name__ == "ReshapeMeta" and op.defaults else "OpMeta"
+        pins.append((f"{c.__module__}.{c.__qualname__}", mc, tuple(op.defaults.values()), op))
+    del cands
     return [(PIN_SLOT0 + k, t, m, a, o) for k, (t, m, a, o) in enumerate(pins)]
 
 
@@ -1391,15 +1400,20 @@ def _correspond(ctx):
             return
         core = [r for r in RECIPES if r.core]
         depth = 3 if ctx.tier == "quick" else 4
-        hs = [fill_interps(h, ctx.rng) for h in enumerate_histories(depth, core)]
+        hs = [fill_interps(h, ctx.rng) for h in enumerate_histories(3, core)]
+        if depth == 4:
+            # depth 4 over the term/domain part of the core alphabet (the op part is covered at depth 3)
+            opnames = {r.name for r in OP_RECIPES} | {"x3"}
+            core4 = [r for r in core if r.name not in opnames]
+            hs += [fill_interps(h, ctx.rng) for h in enumerate_histories(4, core4)]
         ctx.count("exhaustive-histories", len(hs))
         all_runs = 0
         for i in range(0, len(hs), 300):
             all_runs += run_batch(ctx, w, hs[i:i + 300], f"exhaustive-depth-{depth}")
             if len([f for f in ctx.failures if f.witness is not None]) >= 5:
                 break
-        nrand = 400 if ctx.tier == "quick" else 6000
-        maxlen = 40 if ctx.tier == "quick" else 60
+        nrand = 300 if ctx.tier == "quick" else 6000
+        maxlen = 36 if ctx.tier == "quick" else 60
         rh = [fill_interps(random_history(ctx.rng, ctx.rng.randint(6, maxlen), RECIPES), ctx.rng)
               for _ in range(nrand)]
         for i in range(0, len(rh), 100):
